@@ -524,9 +524,21 @@ func parseTileSpec(config specJSON) (TileSpec, error) {
 		if err != nil {
 			return nil, fmt.Errorf("Scaling '%s' needs to be a number for the scale level.", scaleStr)
 		}
-		if scaleLevel >= numLevels {
+		if scaleLevel < 0 || scaleLevel >= numLevels {
 			return nil, fmt.Errorf("Tile levels must be consecutive integers from [0,Max]: Got scale level %d > # levels (%d)\n",
 				scaleLevel, numLevels)
+		}
+		// tiles are laid out and stitched by dividing by these values
+		if len(levelSpec.Resolution) != 3 {
+			return nil, fmt.Errorf("Resolution of scale level %d must have 3 values, got %d", scaleLevel, len(levelSpec.Resolution))
+		}
+		for dim := 0; dim < 3; dim++ {
+			if !(levelSpec.Resolution[dim] > 0) {
+				return nil, fmt.Errorf("Resolution of scale level %d must be positive, got %v", scaleLevel, levelSpec.Resolution)
+			}
+			if levelSpec.TileSize[dim] <= 0 {
+				return nil, fmt.Errorf("TileSize of scale level %d must be positive, got %s", scaleLevel, levelSpec.TileSize)
+			}
 		}
 		specs[Scaling(scaleLevel)] = TileScaleSpec{LevelSpec: levelSpec}
 	}
